@@ -22,7 +22,7 @@ PID = "C13"
 LEVEL = "exploration"
 ENGINE = "ctxsim"
 CHUNK = 4
-REACH = ['stage:parameters', 'stage:return', 'misuse:sym', 'misuse:q', 'misuse:struct', 'misuse:brace', 'switch:on', 'switch:off', 'calls_with_fault_fired']  # counters (prefixes) that a healthy batch makes non-zero; gaps are reported in the evidence
+REACH = ['message_lists_structure_of_earlier_parameter', 'stage:parameters', 'stage:return', 'misuse:sym', 'misuse:q', 'misuse:struct', 'misuse:brace', 'switch:on', 'switch:off', 'calls_with_fault_fired']  # counters (prefixes) that a healthy batch makes non-zero; gaps are reported in the evidence
 BUDGET = {"quick": 40, "thorough": 600}
 RULE = (
     "Seeded ill-typed call families as in C02 (failure at any parameter position or at the return value; size, "
